@@ -160,6 +160,9 @@ func init() {
 	I[T+"UTC"] = func(e *Exec, fn *ssa.Function, a []Value) Value { return a[0] }
 	I[T+"IsZero"] = func(e *Exec, fn *ssa.Function, a []Value) Value { return Eq(tv(a[0]), BVC(128, zeroTimeNanos)) }
 	I[T+"Unix"] = func(e *Exec, fn *ssa.Function, a []Value) Value {
+		if s := a[0].(TimeV).Secs; s != nil {
+			return s
+		}
 		t := tv(a[0])
 		// floor division by 1e9
 		q := BVSDiv(t, e9)
@@ -173,10 +176,19 @@ func init() {
 		return TimeV{T: BVAdd(BVMul(SExt(128, a[0].(*Term)), e9), SExt(128, a[1].(*Term)))}
 	}
 	I["time.Now"] = func(e *Exec, fn *ssa.Function, a []Value) Value {
-		// environment nondeterminism: a fresh arbitrary instant on every call
-		t := e.freshVar("env_time_now", BVSort(128))
+		// environment nondeterminism: a fresh arbitrary instant on every call, composed of
+		// seconds and nanoseconds so that Unix() needs no division. Environment contract: the
+		// wall clock is between 2023-11-14 (1.7e9 s) and the year 2200 and does not run backwards.
+		secs := e.freshVar("env_time_now_s", BVSort(64))
+		nanos := e.freshVar("env_time_now_ns", BVSort(32))
+		e.assume(And(BVUle(BVU(64, 1700000000), secs), BVUlt(secs, BVU(64, 7258118400)), BVUlt(nanos, BVU(32, 1000000000))))
+		if e.lastNow != nil {
+			e.assume(BVUle(e.lastNow, secs))
+		}
+		e.lastNow = secs
 		e.EnvNondet = append(e.EnvNondet, "time.Now")
-		return TimeV{T: t}
+		t := BVAdd(BVMul(ZExt(128, secs), BVC(128, big.NewInt(1000000000))), ZExt(128, nanos))
+		return TimeV{T: t, Secs: secs}
 	}
 	I["(time.Duration).String"] = func(e *Exec, fn *ssa.Function, a []Value) Value { return StrV{S: "<duration>"} }
 	I["(time.Duration).Seconds"] = func(e *Exec, fn *ssa.Function, a []Value) Value {
@@ -488,6 +500,10 @@ func (e *Exec) knownGlobal(name string, et types.Type) (Value, bool) {
 	switch name {
 	case collPkg + ".ErrNotFound":
 		return errVal(errNotFound), true
+	}
+	const be = "github.com/ethereum/go-ethereum/beacon/engine."
+	if sv, ok := map[string]string{be + "VALID": "VALID", be + "INVALID": "INVALID", be + "SYNCING": "SYNCING", be + "ACCEPTED": "ACCEPTED"}[name]; ok {
+		return StrV{S: sv}, true
 	}
 	const cc = "github.com/btcsuite/btcd/chaincfg."
 	if nn, ok := map[string]string{cc + "MainNetParams": "mainnet", cc + "TestNet3Params": "testnet3", cc + "SigNetParams": "signet", cc + "RegressionNetParams": "regtest", cc + "SimNetParams": "simnet"}[name]; ok {
